@@ -2,7 +2,6 @@ package props
 
 import (
 	"go/token"
-	"go/types"
 	"sort"
 	"strings"
 
@@ -159,25 +158,8 @@ func (s *sess) settingsFlow(lf *ssa.Function) *settingsFlowResult {
 					sim.step(in)
 				}
 			}
-			// which side does this path of the constructor serve: a test of a bool parameter whose argument is a test of s.side
-			side := ""
-			for _, a := range p.Atoms {
-				par, isPar := a.Val.(*ssa.Parameter)
-				if !isPar {
-					continue
-				}
-				if _, isBool := par.Type().Underlying().(*types.Basic); !isBool {
-					continue
-				}
-				arg := strings.TrimSuffix(strings.TrimPrefix(an.Render(sub[par]), "("), ")")
-				taken := a.Rel == "true"
-				switch {
-				case arg == "s.side == 0" && taken, arg == "s.side != 0" && !taken:
-					side = "acceptor"
-				case arg == "s.side == 0" && !taken, arg == "s.side != 0" && taken:
-					side = "initiator"
-				}
-			}
+			// which side does this path of the constructor serve: a test of s.side, directly or through a bool parameter
+			side := s.sideOfPath(p, sub)
 			starts = append(starts, start{side: side, env: sim.env})
 		}
 		if len(starts) == 0 {
@@ -194,13 +176,7 @@ func (s *sess) settingsFlow(lf *ssa.Function) *settingsFlowResult {
 		if p.Return == nil || !p.Passes(res.Store) {
 			continue
 		}
-		pside := ""
-		switch {
-		case p.Has("s.side == 0"):
-			pside = "acceptor"
-		case p.Has("s.side != 0"):
-			pside = "initiator"
-		}
+		pside := s.sideOfPath(p, nil)
 		for _, st0 := range starts {
 			side := pside
 			if st0.side != "" {
@@ -259,4 +235,53 @@ func (r *settingsFlowResult) fieldSource(f string) string {
 		}
 	}
 	return out
+}
+
+// sideOfPath classifies a path by the test of Session.side it passed ("acceptor", "initiator" or "" if none): the test is a
+// comparison of a load of the field `side` with the constant sideAcceptor, made directly or passed in as a bool argument.
+func (s *sess) sideOfPath(p *an.Path, sub map[ssa.Value]ssa.Value) string {
+	acc := int64(0)
+	if k, ok := s.m.Pkg.Members["sideAcceptor"].(*ssa.NamedConst); ok {
+		if v, isInt := an.ConstInt(k.Value); isInt {
+			acc = v
+		}
+	}
+	// isSideTest: v is (side == const) or (side != const); returns whether it holds exactly on the accepting side
+	isSideTest := func(v ssa.Value) (onAcceptor bool, ok bool) {
+		bo, isB := v.(*ssa.BinOp)
+		if !isB || (bo.Op != token.EQL && bo.Op != token.NEQ) {
+			return false, false
+		}
+		for _, pr := range [][2]ssa.Value{{bo.X, bo.Y}, {bo.Y, bo.X}} {
+			k, isK := an.ConstInt(pr[1])
+			if !isK {
+				continue
+			}
+			f, _ := an.LoadedField(an.Unspill(pr[0]))
+			if f == nil || f.Name() != "side" {
+				continue
+			}
+			return (bo.Op == token.EQL) == (k == acc), true
+		}
+		return false, false
+	}
+	side := ""
+	for _, a := range p.Atoms {
+		v := a.Val
+		if par, isPar := v.(*ssa.Parameter); isPar && sub != nil {
+			if arg, has := sub[par]; has {
+				v = arg
+			}
+		}
+		onAcc, ok := isSideTest(v)
+		if !ok {
+			continue
+		}
+		if onAcc == a.Taken {
+			side = "acceptor"
+		} else {
+			side = "initiator"
+		}
+	}
+	return side
 }
